@@ -30,9 +30,10 @@ IMPORTS = ("From Coq Require Import List ZArith QArith Qcanon.\n"
            "From GPV Require Import Base.LinAlg Base.Exec Base.Expr Models.C14_variational Models.C02_mll Models.C02_priors Models.C15_elbo.")
 RUN_DEF = ("Inductive ccase := CE (c : elbo_case) | CB (c : nat * nat * list (list Qc) * list Qc * (Qc * Qc) * nat * list Qc"
            " * list (list Qc) * list Qc * list Qc) | CEA (c : elbo_case) (t : mtree) (vals : list (nat * Qc))"
-           " | CNA (t : mtree) | CNP (t : mtree).\n"
+           " | CNA (t : mtree) | CNP (t : mtree) | CMT (c : mt_case).\n"
            "Definition run (c : ccase) : list Z := match c with CE x => run_elbo x | CB x => run_bound x"
-           " | CEA x t v => run_elbo (elbo_with_added x nil (added_values t v)) | CNA t => run_named_added t | CNP t => run_named t end.")
+           " | CEA x t v => run_elbo (elbo_with_added x nil (added_values t v)) | CNA t => run_named_added t | CNP t => run_named t"
+           " | CMT x => run_mt_elbo x end.")
 
 torch.set_default_dtype(torch.float64)
 
@@ -332,6 +333,27 @@ def _gen_case(rng, tier, family):
     return c
 
 
+def gen_multi(rng, tier):
+    """multi-output variational models: T tasks from L latent sparse GPs (one batched SVGP, batch shape [L]) through
+    IndependentMultitaskVariationalStrategy (L = T) or LMCVariationalStrategy (any L) with a MultitaskGaussianLikelihood
+    (rank 0 / 1, with / without global and task noise); targets B x T with B != T in most cases"""
+    c = _gen_case(rng, tier, "objective")
+    T = rng.choice([2, 3])
+    kind = rng.choice(["indep", "lmc"])
+    L = T if kind == "indep" else rng.choice([1, 2, 3])
+    ntot = rng.choice([4, 4, 6, 6, 3, 5] if tier == "quick" else [4, 6, 6, 8, 3, 5, 9])
+    Bs = [k for k in range(1, min(4, ntot) + 1) if k != T]
+    B = rng.choice(Bs + [T])                     # (B == T now and then: the coincidence must work as well)
+    glob, task = rng.choice([(True, True), (True, True), (True, False), (False, True)])
+    c.update(family="multi", multi=dict(kind=kind, T=T, L=L, rank=rng.choice([0, 0, 1]) if task else 0, glob=glob, task=task),
+             bshape=[L], bpat="model", lbatch=False, lik="multitask", ntot=ntot, m=rng.choice([2, 2, 3]),
+             kernel=rng.choice(["rbf", "matern25", "scale_rbf"]), mean=rng.choice(["zero", "constant"]),
+             batch=sorted(rng.sample(range(ntot), B)), num_data=rng.choice([B, ntot, ntot, ntot + 3, 10, 100]),
+             added=[], shared_handle=False, dist=rng.choice(["cholesky", "cholesky", "meanfield", "natural", "trilnatural", "delta"]),
+             priors=[p for p in c["priors"] if p["target"] in ("lengthscale", "outputscale", "constant")])
+    return c
+
+
 def gen_priors(rng):
     out = []
     if rng.random() < 0.3:
@@ -398,8 +420,24 @@ def build(case):
         Z = torch.stack([Z + 0.125 * k for k in range(nb_of(mb))]).reshape(*mb, m, d)
     if xb:
         b.Xall = torch.stack([b.Xall + 0.0625 * k for k in range(nb_of(xb))]).reshape(*xb, ntot, d)
-    b.yall = torch.tensor([dyv(rng, -2, 2) for _ in range(ntot * b.nb)]).reshape(*bs, ntot)
-    if case["lik"] == "gaussian":
+    multi = case.get("multi")
+    if multi:
+        T = multi["T"]
+        b.yall = torch.tensor([dyv(rng, -2, 2) for _ in range(ntot * T)]).reshape(ntot, T)
+        b.lik = gpytorch.likelihoods.MultitaskGaussianLikelihood(num_tasks=T, rank=multi["rank"], has_global_noise=multi["glob"],
+                                                                 has_task_noise=multi["task"])
+        if multi["glob"]:
+            b.lik.noise = rng.uniform(0.05, 0.6)
+        if multi["task"] and multi["rank"] == 0:
+            b.lik.task_noises = torch.tensor([rng.uniform(0.05, 0.6) for _ in range(T)])
+        elif multi["task"]:
+            b.lik.task_noise_covar_factor.data = torch.tensor([[rng.uniform(0.2, 0.8) * rng.choice([-1, 1])] for _ in range(T)])
+        b.noise_all = None
+    else:
+        b.yall = torch.tensor([dyv(rng, -2, 2) for _ in range(ntot * b.nb)]).reshape(*bs, ntot)
+    if multi:
+        pass
+    elif case["lik"] == "gaussian":
         b.lik = gpytorch.likelihoods.GaussianLikelihood(batch_shape=torch.Size(lb))
         b.lik.noise = torch.tensor([rng.uniform(0.05, 0.8) for _ in range(nb_of(lb))]).reshape(*lb, 1) if lb else rng.uniform(0.05, 0.8)
         b.noise_all = None
@@ -409,11 +447,23 @@ def build(case):
     vd = D14.make_dist(case["dist"], m, pb)
     cls = V.VariationalStrategy if case["strat"] == "vs" else V.UnwhitenedVariationalStrategy
     added = [(a["where"], a["value"]) for a in case.get("added", [])]
-    b.model = SVGP(lambda mod: cls(mod, Z, vd, learn_inducing_locations=True, jitter_val=JIT), mean, kern, added,
-                   shared_handle=bool(case.get("shared_handle")))
+    def mk(mod):
+        base = cls(mod, Z, vd, learn_inducing_locations=True, jitter_val=JIT)
+        if not multi:
+            return base
+        if multi["kind"] == "indep":
+            return V.IndependentMultitaskVariationalStrategy(base, num_tasks=multi["T"], task_dim=-1)
+        return V.LMCVariationalStrategy(base, num_tasks=multi["T"], num_latents=multi["L"], latent_dim=-1, jitter_val=JIT)
+    b.model = SVGP(mk, mean, kern, added, shared_handle=bool(case.get("shared_handle")))
     b.prior_regs = []           # the harness' own record of prior registrations: (module, name, prior object)
     b.vs, b.dist = b.model.variational_strategy, vd
     D14.mark_initialized(b.vs)
+    if multi:
+        b.vs = b.model.variational_strategy.base_variational_strategy
+        if multi["kind"] == "lmc":
+            with torch.no_grad():
+                b.model.variational_strategy.lmc_coefficients.copy_(torch.tensor(
+                    [[dyv(rng, 0.25, 1.5) * rng.choice([-1, 1]) for _ in range(multi["T"])] for _ in range(multi["L"])]))
     D14.fill_dist(vd, case["dist"], m, pb, rng)
     if case.get("far"):      # far from the optimum / nearly singular covariance
         with torch.no_grad():
@@ -430,7 +480,7 @@ def build(case):
                                (lambda a, g: (lambda mm: g(getattr(mm, a))))(attr, CLOSURE_T[p["closure"]]))
             b.prior_regs.append((mod, "verif_prior_%d" % i, pr))
     b.idx = list(case["batch"])
-    b.X = b.Xall[..., b.idx, :]; b.y = b.yall[..., b.idx]
+    b.X = b.Xall[..., b.idx, :]; b.y = b.yall[b.idx, :] if multi else b.yall[..., b.idx]
     return b
 
 
@@ -481,7 +531,9 @@ def objective(b, which, grad=False, scale=False):
             return mll(b.model(b.X), b.y, **kw)
         with torch.no_grad():
             v = mll(b.model(b.X), b.y, **kw)
-    if not b.bs:
+    if not b.bs or b.case.get("multi"):
+        if v.dim() != 0:
+            raise ShapeMismatch("objective has shape %s, expected a scalar" % (tuple(v.shape),))
         return float(v)
     if tuple(v.shape) != tuple(b.bs):
         raise ShapeMismatch("objective has shape %s for batch shape %s" % (tuple(v.shape), tuple(b.bs)))
@@ -562,6 +614,75 @@ def elbo_terms(b):
 
 def elbo_term(b):
     return elbo_terms(b)[0]
+
+
+def mixing(b):
+    """A (L x T): task t = sum_l A[l][t] latent l"""
+    mu = b.case["multi"]
+    if mu["kind"] == "indep":
+        return [[1.0 if l == t else 0.0 for t in range(mu["T"])] for l in range(mu["L"])]
+    return b.model.variational_strategy.lmc_coefficients.detach().tolist()
+
+
+def mt_noise(b):
+    """noise variances of the conditional p(y | f) at the minibatch points (B x T): the likelihood's own forward on f = 0"""
+    B, T = len(b.idx), b.case["multi"]["T"]
+    b.lik.train()
+    with torch.no_grad(), gs.debug(False):
+        return b.lik(torch.zeros(B, T)).variance.tolist()
+
+
+def priors_all(b):
+    """log prior terms of a scalar objective: every entry of every prior term (batch dimensions of the owner that the
+    objective does not have -- the latent dimension of a multi-output model -- are summed)"""
+    tg = prior_targets(b)
+    out = []
+    for p in b.case.get("priors", []):
+        if p["target"] in tg:
+            mod, attr = tg[p["target"]]
+            out.append(sum((prior_logpdf(p["spec"], CLOSURE_M[p["closure"]](mp.mpf(v))) for v in getattr(mod, attr).detach().reshape(-1).tolist()), mp.mpf(0)))
+    return out
+
+
+def mt_term(b):
+    """the Coq term of a multi-output case: one latent problem per batch element of the SVGP + mixing matrix + B x T targets"""
+    case = b.case
+    m, n = case["m"], len(b.idx)
+    Ks, mus = prior_pieces(b)
+    lats = []
+    for bi in range(b.nb):
+        K, mu = Ks[bi], mus[bi]
+        p1, p2 = D14.dist_params(b.dist, case["dist"], bi)
+        if case["strat"] == "vs":
+            strat, jxx, L = 1, JIT, root_L(K, m).tolist()
+        else:
+            strat, jxx, L = 0, 0.0, [[0.0]]
+        lats.append("(%d%%nat, (%d%%nat, %d%%nat), %s, %s, (%s, %s), %d%%nat, %s, %s, %s, (@nil Qc), (@nil Qc), (%s, %s), (@nil Qc), (@nil Qc))" % (
+            strat, m, n, C.qc_mat(K), C.qc_vec(mu), C.qc_lit(JIT), C.qc_lit(jxx), D14.KIND[case["dist"]], C.qc_vec(p1), C.qc_mat(p2),
+            C.qc_mat(L), C.qc_lit(1.0), C.qc_lit(1.0)))
+    pri = [float(v) for v in priors_all(b)]
+    # (LMCVariationalStrategy adds its jitter_val to the diagonal of the mixed covariance)
+    return "CMT ([%s], (%s, %s), %s, %s, (%s, %s), %s, (@nil Qc))" % (
+        "; ".join(lats), C.qc_mat(mixing(b)), C.qc_lit(JIT if case["multi"]["kind"] == "lmc" else 0.0), C.qc_mat(b.y.tolist()), C.qc_mat(mt_noise(b)), C.qc_lit(case["beta"]),
+        C.qc_lit(case["num_data"]), C.qc_vec(pri) if pri else "(@nil Qc)")
+
+
+def decode_mt(r, n, T):
+    rd = C.Reader(r)
+    if rd.int() != 1:
+        return None
+    return dict(mean=rd.qs(n * T), var=rd.qs(n * T), kl=rd.expr(), elbo=rd.expr(), pll=rd.expr())
+
+
+def partition_values(case, which):
+    """the objective on every member of a partition of ALL points into equal consecutive minibatches, for every minibatch
+    size that divides the number of points: {size: [values]} (size = ntot is the full batch)"""
+    ntot = case["ntot"]
+    res = {}
+    for size in range(1, ntot + 1):
+        if ntot % size == 0:
+            res[size] = [objective(build(dict(case, batch=list(range(k, k + size)))), which) for k in range(0, ntot, size)]
+    return res
 
 
 def unwhitened_moments(b, K, bi=0):
@@ -744,11 +865,64 @@ def grad_plan(case):
     return plan
 
 
+def check_multi(out, case, b, r):
+    """a multi-output case: objective values against the dense definition (Coq), q(f) marginals, and the minibatch-partition
+    identity (the mean of the objective over a partition of all points into equal minibatches is the full-batch value)"""
+    mu = case["multi"]
+    n, T = len(b.idx), mu["T"]
+    desc = dict(short(case), **{k: mu[k] for k in ("kind", "T", "L", "rank", "glob", "task")})
+    mtag = "multi:%s:%s:%s" % (mu["kind"], case["strat"], case["dist"])
+    out.case(desc, True, label="multi:%s:%s" % (mu["kind"], case["strat"]))
+    out.count("multi:T=%d" % T); out.count("multi:B%sT" % ("==" if n == T else "!=")); out.count("multi:noise-rank=%d" % mu["rank"])
+    out.count("multi:L=%d" % mu["L"]); out.count("dist=" + case["dist"])
+    d = decode_mt(r, n, T)
+    if d is None:
+        out.fail("model:rejects:%s" % mtag, "the model could not evaluate the case (singular matrix)", dict(case=case))
+        return
+    # q(f) as the objective sees it (public: model(x) in training mode)
+    try:
+        bq = build(case)
+        bq.model.train()
+        with torch.no_grad(), gs.debug(False):
+            qf = bq.model(bq.X)
+            got_m, got_v = qf.mean.reshape(-1).tolist(), qf.variance.reshape(-1).tolist()
+        if tuple(qf.event_shape) != (n, T) or not all(C.close(a, w, TOL, TOL) for a, w in zip(got_m + got_v, list(d["mean"]) + list(d["var"]))):
+            out.fail("qf:%s" % mtag, "q(f) of the multi-output model (event shape B x T: task means / variances) differs from the mixing of the latent "
+                     "marginals", dict(case=case, which="mt-qf"), impl=[got_m, got_v], model=[[float(v) for v in d["mean"]], [float(v) for v in d["var"]]])
+    except Exception as e:  # noqa: BLE001
+        out.fail("impl-exception:qf:%s:%s" % (mtag, type(e).__name__), "model(x) raised %r" % e, dict(case=case, which="mt-qf"))
+    for which, cls in (("elbo", "VariationalELBO"), ("pll", "PredictiveLogLikelihood")):
+        try:
+            v = objective(build(case), which)
+        except Exception as e:  # noqa: BLE001
+            out.fail("impl-exception:%s:%s:%s" % (which, mtag, type(e).__name__), "implementation raised %r" % e, dict(case=case, which=which))
+            continue
+        if not C.close(v, d[which], TOL, TOL):
+            out.fail("%s:%s:%s%s" % (which, mtag, "minibatch" if case["num_data"] != n else "fullbatch", ":priors" if case.get("priors") else ""),
+                     "%s of a multi-output model differs from its definition (1/B) sum_i sum_t ell_it - (beta/N) sum_l KL_l + (1/N) log priors, B = number "
+                     "of minibatch POINTS" % cls, dict(case=case, which=which), impl=v, model=float(d[which]))
+        # partition identity (implementation only; c15_multioutput_partition)
+        try:
+            pv = partition_values(case, which)
+            full = pv[case["ntot"]][0]
+            out.case(dict(desc, check="partition", objective=which, sizes=sorted(pv)), len(pv) > 2, label="multi:partition")
+            for size, vals in sorted(pv.items()):
+                mean = sum(vals) / len(vals)
+                if abs(mean - full) > 1e-9 * (1 + abs(full)):
+                    out.fail("partition:%s:%s" % (which, mtag), "the mean of %s over a partition of all %d points into equal minibatches of %d points differs "
+                             "from the full-batch value" % (cls, case["ntot"], size), dict(case=case, which="mt-partition", objective=which, size=size),
+                             impl=mean, model=full)
+                    break
+        except Exception as e:  # noqa: BLE001
+            out.fail("impl-exception:partition:%s:%s:%s" % (which, mtag, type(e).__name__), "implementation raised %r" % e,
+                     dict(case=case, which="mt-partition", objective=which))
+
+
 def run(out, ctx):
     tier, seed = ctx["tier"], ctx["seed"]
     rng = random.Random(seed * 104729 + 15)
-    nc = dict(objective=54, bound=16, objective_b=12, bound_b=8, grad=4) if tier == "quick" else \
-        dict(objective=600, bound=200, objective_b=150, bound_b=80, grad=30)
+    nc = dict(objective=54, bound=16, objective_b=12, bound_b=8, grad=4, multi=14) if tier == "quick" else \
+        dict(objective=600, bound=200, objective_b=150, bound_b=80, grad=30, multi=150)
     nc = {k: max(1, int(v * ctx.get("scale", 1.0))) for k, v in nc.items()}   # scale < 1 only in builder sensitivity runs
     cases = [gen_case(rng, tier, fam) for fam in ("objective", "bound") for _ in range(nc[fam])]
     cases += [gen_case(rng, tier, fam, batched=True) for fam in ("objective", "bound") for _ in range(nc[fam + "_b"])]
@@ -773,15 +947,34 @@ def run(out, ctx):
                 "shared by two models with only one ELBO back-propagated - the other model's parameters must not move).  BATCHED models (a batch of "
                 "sparse GPs in one ApproximateGP, batch shapes (2), (3), thorough also (2,2)): the batch shape on kernel+mean+inducing points+q(u) / on q(u) only / on the inputs "
                 "only / on everything, Gaussian likelihood batched or shared, one target vector per element; objective, KL pieces, bounds, q* and the NGD step (on the "
-                "summed objective) are checked for EVERY batch element against its own dense problem; each element carries the log priors of ITS OWN "
+                "summed objective) are checked for EVERY batch element against its own dense problem; MULTI-OUTPUT models (family multi: T = 2, 3 tasks from L latent sparse GPs -- one batched SVGP of batch shape [L], "
+                "whitened or unwhitened, all five q(u) classes -- through IndependentMultitaskVariationalStrategy (L = T) or LMCVariationalStrategy (L = 1..3, random mixing matrix, its diagonal jitter modelled) "
+                "with MultitaskGaussianLikelihood of rank 0 / 1, with / without global and task noise; targets B x T with B != T in most cases, random minibatches, declared num_data / beta / priors as above): "
+                "q(f) (task means / variances), VariationalELBO and PredictiveLogLikelihood against the dense definition (Models/C15_elbo.v run_mt_elbo: (1/B) sum_i sum_t ell_it - (beta/N) sum_l KL_l + priors/N, B = number of "
+                "minibatch POINTS) and the minibatch-partition identity on the implementation (for every minibatch size dividing the number of points, the mean of the objective over the partition into equal consecutive minibatches "
+                "= the full-batch value; theorem c15_multioutput_partition); each element carries the log priors of ITS OWN "
                 "parameter slice (entries of a prior term whose owner's batch index broadcasts to that element; all entries of a non-batch owner).  non-trivial = every "
                 "case (q(u) is random, never the prior)" % (4 if tier == "quick" else 5, 6 if tier == "quick" else 8))
     out.extra["tolerances"] = {"objective": TOL, "bound slack": 1e-8, "ELBO(q*) / NGD step vs collapsed bound": 1e-6,
                                 "gradient": "rtol %g atol %g, h=%g" % (GRAD_RTOL, GRAD_ATOL, GRAD_H)}
+    # multi-output models (own stream: the cases above stay what they were); both strategies and both constructions in every run
+    mrng = random.Random(seed * 7919 + 1501)
+    multis = [gen_multi(mrng, tier) for _ in range(nc["multi"])]
+    for k, c in enumerate(multis):
+        c["strat"] = STRATS[0] if k % 3 else STRATS[1]
+        if k < 4:
+            kind = ["indep", "lmc"][k % 2]
+            c["multi"].update(kind=kind, L=c["multi"]["T"] if kind == "indep" else c["multi"]["L"])
+            c["bshape"] = [c["multi"]["L"]]
+    cases += multis
     built, coq, owner, impl_named = [], [], [], {}
     for ci, case in enumerate(cases):
         try:
             b = build(case)
+            if case.get("multi"):
+                coq.append(mt_term(b)); owner.append(("mt", ci, 0))
+                built.append(b)
+                continue
             for bi, t in enumerate(elbo_terms(b)):
                 coq.append(t); owner.append(("elbo", ci, bi))
             if case["family"] == "bound":
@@ -819,6 +1012,9 @@ def run(out, ctx):
         if b is None:
             continue
         n = len(b.idx)
+        if case.get("multi"):
+            check_multi(out, case, b, dec[("mt", ci)][0][1])
+            continue
         desc = short(case)
         bt = btag(case)
         tag = "%s:%s" % (case["strat"], case["dist"])
@@ -973,7 +1169,27 @@ def replay(path):
     d = json.load(open(path))
     info = d["case"]; case = info["case"]; which = info.get("which", "elbo")
     b = build(case)
-    if which in ("elbo", "pll"):
+    if case.get("multi"):
+        mu = case["multi"]
+        r = C.coq_run_cases("C15_replay", IMPORTS, RUN_DEF, [mt_term(b)])[0]
+        dd = decode_mt(r, len(b.idx), mu["T"])
+        bad = False
+        for w in ("elbo", "pll"):
+            v = objective(build(case), w)
+            print(w, "impl", v, "model", float(dd[w]))
+            bad = bad or not C.close(v, dd[w], TOL, TOL)
+            pv = partition_values(case, w)
+            for size, vals in sorted(pv.items()):
+                print("  partition into minibatches of", size, ": mean", sum(vals) / len(vals), "full batch", pv[case["ntot"]][0])
+                bad = bad or abs(sum(vals) / len(vals) - pv[case["ntot"]][0]) > 1e-9 * (1 + abs(pv[case["ntot"]][0]))
+        bq = build(case); bq.model.train()
+        with torch.no_grad(), gs.debug(False):
+            qf = bq.model(bq.X)
+        print("impl  q(f) mean", qf.mean.reshape(-1).tolist(), "var", qf.variance.reshape(-1).tolist())
+        print("model q(f) mean", [float(x) for x in dd["mean"]], "var", [float(x) for x in dd["var"]], "KL", float(dd["kl"]))
+        bad = bad or not all(C.close(a, w_, TOL, TOL) for a, w_ in zip(qf.mean.reshape(-1).tolist() + qf.variance.reshape(-1).tolist(),
+                                                                       list(dd["mean"]) + list(dd["var"])))
+    elif which in ("elbo", "pll"):
         rs = C.coq_run_cases("C15_replay", IMPORTS, RUN_DEF, elbo_terms(b))
         vs = as_list(objective(build(case), which))
         bad = False
